@@ -207,4 +207,40 @@ theorem claim_50_iff (g : Game) (m : Option Mv) (hal : getGameState g = .alive) 
     · rw [processMove_drawState]; simp [ha]
     · simp [ha]
 
+/-! ### the computer player's claims -/
+
+/-- the hypotheses under which the hash scan decides repetition: see `Hist.scanOld_iff` -/
+structure ScanHyp (hash : Pos → Nat) (l : List Pos) (new : Pos) : Prop where
+  hinj : ∀ q ∈ l, hash q = hash new → drawKey q = drawKey new
+  hwf : ∀ q ∈ l, drawKey q = drawKey new → hash q = hash new
+  hwin : ∀ (i : Nat) q, l[i]? = some q → drawKey q = drawKey new → i + 4 ≤ l.length ∧ (l.length - i) % 2 = 0
+  hclk : ((l.length : Int) ≤ new.hmc) ∨ ∀ q ∈ l, drawKey q ≠ drawKey new
+
+theorem canClaimDraw_eq (hash : Pos → Nat) (hist : List Pos) (p : Pos) (m : Mv)
+    (h1 : ScanHyp hash hist p) (h2 : ScanHyp hash (hist ++ [p]) (apply p m)) :
+    canClaimDraw hash hist p m =
+      if 100 ≤ p.hmc then .d50
+      else if 2 ≤ hist.countP (fun q => decide (drawKey q = drawKey p)) then .rep
+      else if 100 ≤ (apply p m).hmc then .d50m
+      else if 2 ≤ (hist ++ [p]).countP (fun q => decide (drawKey q = drawKey (apply p m))) then .repm
+      else .none := by
+  have e1 := scanOld_iff drawKey hash hist p p.hmc hist.length (by omega) h1.hinj h1.hwf h1.hwin h1.hclk
+  have e2 := scanOld_iff drawKey hash (hist ++ [p]) (apply p m) (apply p m).hmc (hist.length + 1)
+    (by simp only [List.length_append, List.length_singleton]; omega) h2.hinj h2.hwf h2.hwin h2.hclk
+  unfold canClaimDraw
+  simp only []
+  by_cases a : 100 ≤ p.hmc
+  · simp [a]
+  · simp only [a, if_false]
+    by_cases b : 2 ≤ hist.countP (fun q => decide (drawKey q = drawKey p))
+    · simp only [b, if_true]; rw [if_pos (e1.2 b)]
+    · simp only [b, if_false]
+      rw [if_neg (fun h => b (e1.1 h))]
+      by_cases c : 100 ≤ (apply p m).hmc
+      · simp [c]
+      · simp only [c, if_false]
+        by_cases d : 2 ≤ (hist ++ [p]).countP (fun q => decide (drawKey q = drawKey (apply p m)))
+        · simp only [d, if_true]; rw [if_pos (e2.2 d)]
+        · simp only [d, if_false]; rw [if_neg (fun h => d (e2.1 h))]
+
 end GameM
